@@ -48,6 +48,9 @@ def gen(tier, rng, reconnect_values=(0,)):
                     cbs = dict(allret)
                     cbs[cb] = mode
                     yield {"callbacks": cbs, "attempts": [{"evs": tr + end}]}
+                    if mode == "kbd" and tr is TRAFFIC[2] and cb != "on_error":     # (the simulated on_error never raises)
+                        # the same with a reconnect interval set: an interrupt still ends the run (it is not a lost connection)
+                        yield {"callbacks": cbs, "attempts": [{"evs": tr + end}, {"evs": [FR["text"], FR["close0"]]}], "reconnect": 2}
                     if tr is TRAFFIC[3]:
                         # the same with callbacks given as partial objects, callable instances, bound methods
                         form = ("partial", "object", "method")[(CBS.index(cb) + len(mode) + ENDS.index(end)) % 3]
